@@ -169,8 +169,8 @@ def build_harness(quiet=True):
     return VH
 
 
-def run_harness(sub, cases, workdir_, shards=None, hang_timeout=20.0, env=None, extra_args=None,
-                total_timeout=3600):
+def run_harness(sub, cases, workdir_, shards=None, hang_timeout=8.0, env=None, extra_args=None,
+                total_timeout=3600, max_hangs=2):
     """Run `vh <sub> IN OUT` over the cases (list of JSON-able objects, each gets "case": index).
     The harness writes one observation line per case, flushed, in order.  A worker that makes no
     progress for hang_timeout seconds is killed; the in-flight case is recorded as result "hang"
@@ -195,7 +195,15 @@ def run_harness(sub, cases, workdir_, shards=None, hang_timeout=20.0, env=None, 
         idx = list(range(k, n, shards))
         pos = 0
         attempt = 0
+        hangs = 0
         while pos < len(idx):
+            if hangs >= max_hangs:
+                # a badly broken tree: do not spend hang_timeout on every remaining case
+                for i in idx[pos:]:
+                    o = dict(cases[i])
+                    o["obs"] = {"result": "skipped"}
+                    results[i] = o
+                break
             attempt += 1
             inp = os.path.join(workdir_, "in_%s_%d_%d.ndjson" % (sub, k, attempt))
             outp = os.path.join(workdir_, "out_%s_%d_%d.ndjson" % (sub, k, attempt))
@@ -250,6 +258,7 @@ def run_harness(sub, cases, workdir_, shards=None, hang_timeout=20.0, env=None, 
                 o["obs"] = {"result": "hang" if status == "hang" else "crash", "err": tail}
                 results[i] = o
                 pos += 1
+                hangs += 1
             elif pos < len(idx) and status == "exit":
                 raise ToolError("harness exited 0 with cases missing (%s shard %d)" % (sub, k))
             if time.time() > deadline:
@@ -289,6 +298,7 @@ def validate_obs(module, cfg, obs_lines, wd, name, shards=None, timeout=900, env
     if shards is None:
         shards = max(1, min(NCPU // 2, n // 400 + 1))
     bad = []
+    drift = []
     errs = []
     checked = [0]
     lock = threading.Lock()
@@ -314,6 +324,10 @@ def validate_obs(module, cfg, obs_lines, wd, name, shards=None, timeout=900, env
             if m:
                 with lock:
                     bad.append((idx[int(m.group(1)) - 1], m.group(2)))
+            m = re.match(r'^<<"DRIFT", (\d+)>>', ln)
+            if m:
+                with lock:
+                    drift.append(idx[int(m.group(1)) - 1])
             m = re.match(r'^<<"CHECKED", (\d+)>>', ln)
             if m:
                 got_checked = True
@@ -332,6 +346,7 @@ def validate_obs(module, cfg, obs_lines, wd, name, shards=None, timeout=900, env
     if errs:
         raise ToolError(str(errs[0]))
     bad.sort()
+    validate_obs.last_drift = sorted(drift)
     return bad
 
 
